@@ -37,7 +37,14 @@ def _messages_from_derive(crate):
 SYN_MESSAGES = ("expected", "unexpected", "unsupported", "cannot parse", "unrecognized")
 
 
-def is_derive_message(msg, msgs, frags):
+NOT_DERIVE = ("cannot find", "proc-macro derive", "aborting due to", "could not compile", "internal compiler error")
+
+
+def is_derive_message(msg, msgs, frags, code="?"):
+    if code is None and not any(msg.startswith(x) for x in NOT_DERIVE) and "panicked" not in msg:
+        # diagnostics of the compiler's own analyses of the generated code (resolution, typing, borrowing) carry an error code;
+        # what a derive hands back through compile_error! / syn::Error carries none - whatever way its text was put together
+        return "derive"
     if msg in msgs:
         return "derive"
     for f in frags:
@@ -110,7 +117,7 @@ def run(ctx, derive_crate):
                 verdict = "ACCEPTED"
             else:
                 good = [e for e in errs if e["msg"] != "aborting due to previous error" and not e["msg"].startswith("aborting due to")]
-                kinds = [is_derive_message(e["msg"], msgs, frags) for e in good]
+                kinds = [is_derive_message(e["msg"], msgs, frags, e.get("code")) for e in good]
                 in_input = [e for e, k in zip(good, kinds) if k and e["line"] >= prelude_lines]
                 if not good:
                     verdict = "NO-DIAGNOSTIC"
